@@ -26,6 +26,7 @@ func NewConnPipeIPC(c net.Conn, proto ProtocolInfo) ConnPipe {
 		conn: conn{
 			c:       c,
 			proto:   proto,
+			open:    true, // so that Close works while the handshake is pending
 			options: make(map[string]interface{}),
 			maxrx:   0,
 		},
